@@ -114,7 +114,7 @@ func genPopt(r drv.Rand) poptd {
 	case k == 14:
 		return poptd{"PCors 1", func(w *world) op.Option { return op.WithCORSOptions(w.corsOpt) }}
 	}
-	return poptd{"PLogger", func(w *world) op.Option { return op.WithLogger(quiet) }}
+	return poptd{"PLogger", func(w *world) op.Option { return op.WithLogger(w.logr) }}
 }
 
 func (w *world) cachedOpt(o poptd) op.Option {
@@ -157,7 +157,7 @@ func newProviderCaps(i, stor int, opts []poptd, variant, caps int, lists bool) o
 			st.Signing = signingFor(w.cfg.sigAlg, 1)
 			addClients(st)
 			w.stores[stor] = st
-			oo := append([]op.Option{op.WithLogger(quiet)}, ownAlgOpts()...)
+			oo := append([]op.Option{op.WithLogger(w.logr)}, ownAlgOpts()...)
 			for _, o := range opts {
 				oo = append(oo, w.cachedOpt(o)) // the SAME option value whenever the same option is used again in this run
 			}
@@ -194,7 +194,7 @@ func newLegacyCaps(i, stor, caps int) opd {
 			st.Signing = signingFor(w.cfg.sigAlg, 1)
 			addClients(st)
 			w.stores[stor] = st
-			p, err := op.NewProvider(provCfg(), capStorage(st, caps), op.StaticIssuer(opfix.Issuer), append([]op.Option{op.WithLogger(quiet)}, ownAlgOpts()...)...)
+			p, err := op.NewProvider(provCfg(), capStorage(st, caps), op.StaticIssuer(opfix.Issuer), append([]op.Option{op.WithLogger(w.logr)}, ownAlgOpts()...)...)
 			if err != nil {
 				return
 			}
